@@ -79,6 +79,12 @@ def gen_world(rng, nmin=3, nmax=20, na_rate=0.0, na_cols=(), ordered_prob=0.5, f
     cat("u2", 2)
     num("x", -3, 6)
     num("z", 1, 5)
+    # a column whose training mean is exactly zero (memoised parameters that are 0 must stay memoised)
+    half = [rng.randint(1, 4) for _ in range(n // 2)]
+    xc = half + [-v for v in half] + ([0] if n % 2 else [])
+    rng.shuffle(xc)
+    data["xc"] = np.array(xc, dtype=np.int64)
+    w.cols["xc"] = {"kind": "num", "v": xc, "decl": []}
     num("w", 0, 3)
     num("u1", 0, 9)
     # integer-coded factor used through C(k)
@@ -92,6 +98,9 @@ def gen_world(rng, nmin=3, nmax=20, na_rate=0.0, na_cols=(), ordered_prob=0.5, f
     ks = sorted(set(kv))
     w.cols["C(k)"] = {"kind": "cat", "v": [ks.index(v) + 1 for v in kv], "decl": []}
     w.names["C(k)"] = [str(v) for v in ks]
+    # a call that returns plain strings (not a CategoricalBox): levels must still be sorted
+    w.cols["I(h)"] = {"kind": "cat", "v": list(w.cols["h"]["v"]), "decl": []}
+    w.names["I(h)"] = list(w.names["h"])
     # response: distinct integers
     yv = list(range(10, 10 + 3 * n, 3))
     rng.shuffle(yv)
@@ -116,7 +125,7 @@ def gen_world(rng, nmin=3, nmax=20, na_rate=0.0, na_cols=(), ordered_prob=0.5, f
     return w
 
 
-DERIVED = {"C(k)": ["k"], "I(x * 2)": ["x"], "np.abs(x)": ["x"], "I(z + w)": ["z", "w"]}
+DERIVED = {"C(k)": ["k"], "I(h)": ["h"], "I(x * 2)": ["x"], "np.abs(x)": ["x"], "I(z + w)": ["z", "w"]}
 
 
 def _set_na(w, df, c, r):
@@ -140,7 +149,7 @@ def _set_na(w, df, c, r):
             w.cols[dname]["v"][r] = 0 if w.cols[dname]["kind"] == "cat" else NA
 
 
-CAT_COMPS = ["f", "g", "h", "o", "C(k)"]
+CAT_COMPS = ["f", "g", "h", "o", "C(k)", "I(h)"]
 NUM_COMPS = ["x", "z", "I(x * 2)", "np.abs(x)", "I(z + w)"]
 
 
@@ -159,6 +168,8 @@ def gen_formula(rng, groups=True, max_terms=4, resp="y", cat_comps=None, num_com
         arity = rng.choice([1, 1, 1, 2, 2, 3])
         ncat = rng.randint(0, min(arity, 2))
         comps = rng.sample(cat_comps, ncat) + rng.sample(num_comps, min(arity - ncat, 2))
+        if "h" in comps and "I(h)" in comps:
+            comps.remove("I(h)")
         # x-derived numerics are dependent: keep at most one of them per term
         xs = [c for c in comps if c in ("x", "I(x * 2)", "np.abs(x)")]
         for c in xs[1:]:
@@ -170,10 +181,10 @@ def gen_formula(rng, groups=True, max_terms=4, resp="y", cat_comps=None, num_com
             # the same terms spelled with an operator: several terms are built from the same components
             a, b = comps
             if rng.random() < 0.5:
-                spelled.append((f"{a}*{b}", len(terms)))
+                spelled.append((f"{a}*{b}", len(terms), 3))
                 terms += [[a], [b], [a, b]]
             else:
-                spelled.append((f"{a}/{b}", len(terms)))
+                spelled.append((f"{a}/{b}", len(terms), 2))
                 terms += [[a], [a, b]]
             continue
         if len(comps) > 1 and rng.random() < hier:
@@ -190,11 +201,11 @@ def gen_formula(rng, groups=True, max_terms=4, resp="y", cat_comps=None, num_com
     icpt = rng.random() < 0.75
     parts = [] if icpt else ["0"]
     k = 0
-    starts = {i: txt for txt, i in spelled}
+    starts = {i: (txt, width) for txt, i, width in spelled}
     while k < len(terms):
         if k in starts:
-            parts.append(starts[k])
-            k += 3 if "*" in starts[k] else 2
+            parts.append(starts[k][0])
+            k += starts[k][1]
         else:
             parts.append(":".join(terms[k]))
             k += 1
@@ -219,6 +230,9 @@ def gen_formula(rng, groups=True, max_terms=4, resp="y", cat_comps=None, num_com
         parts.append("x")
         terms.append(["x"])
     text = (resp + " ~ " if resp else "") + " + ".join(parts)
+    if rng.random() < 0.15:
+        # a term that is added and removed again: its variable is not used by the formula
+        text = text.replace(" ~ ", " ~ u1 + ", 1) + " - u1" if " ~ " in text else "u1 + " + text + " - u1"
     used = set()
     for t in terms:
         used.update(t)
